@@ -125,6 +125,55 @@ func init() {
 		},
 	})
 	eng.Register(&eng.Scenario{
+		Name: "refcount-canceled-error", Props: []string{"C10"}, MustFinish: true, ObsNames: stdObs,
+		Doc:   "RefCount whose resolver fails with the error context.Canceled itself (its own context is live): Wait / Resolve / ResolveWithReleased / Access / WaitRefCountContainer (choice) with a live caller context return that error as such and promptly (no spinning, no parking), before or after the result is stored (choice)",
+		Quick: eng.Bounds{PB: 2}, Thorough: eng.Bounds{PB: 3},
+		Body: func() {
+			e := newRC2(bg, vsched.Choose(2) == 1, func(int) int { return mErrCanceled })
+			how := vsched.Choose(4)
+			keepRef := e.rc.AddRef(nil)
+			if vsched.Choose(2) == 1 {
+				vsched.Settle() // the failed result is already stored when the consumer arrives
+			}
+			T("H", func() {
+				var v int
+				var err error
+				var rel func()
+				switch how {
+				case 0:
+					var ref *refcount.Ref[int]
+					v, ref, err = e.rc.Wait(bg)
+					if ref != nil {
+						rel = ref.Release
+					}
+				case 1:
+					v, rel, err = e.rc.Resolve(bg)
+				case 2:
+					v, rel, err = e.rc.ResolveWithReleased(bg, func() {})
+				case 3:
+					err = e.rc.Access(bg, func(context.Context, int) error {
+						fail("C10.bogus-value", "the Access callback was invoked although the resolver only ever fails")
+						return nil
+					})
+				}
+				vsched.CtrSet(xCallerCxl, 1) // (re-used as "the consumer returned")
+				if err != context.Canceled {
+					fail("C10.wrong-error", "the resolver failed with context.Canceled (caller context live): the consumer returned (%d, %v), want that error as such", v, err)
+				}
+				if err != nil && (v != 0 || rel != nil) {
+					fail("C10.value-with-error", "the consumer returned value %d / a release function together with error %v", v, err)
+				}
+			})
+			vsched.Settle()
+			if vsched.Ctr(xCallerCxl) == 0 {
+				fail("C10.wrong-error", "the resolver failed with context.Canceled and the caller's context is live: the consumer has not returned by quiescence")
+			}
+			keepRef.Release()
+			e.setContext(nil)
+			vsched.Settle()
+		},
+	})
+	eng.Register(&eng.Scenario{
 		Name: "refcount-released-cb", Props: []string{"C10"}, MustFinish: true, ObsNames: stdObs,
 		Doc:   "RefCount.ResolveWithReleased: the holder obtains a value and keeps it; then (quiescence-gated) the value is invalidated by released(), SetContext(fresh), ClearContext, or SetContext(fresh) with a replacement resolver call that never returns (choice) while other references come and go; the released callback must have fired exactly once by the next quiescent state and never again",
 		Quick: eng.Bounds{PB: 3, Delay: true}, Thorough: eng.Bounds{PB: 4, Delay: true},
@@ -789,7 +838,7 @@ func init() {
 		Body: accessBody([]int{1, 0}, mInvalidate, false, false),
 	})
 	eng.Register(&eng.Scenario{
-		Name: "refcount-access-fast", Props: []string{"C10"}, ObsNames: stdObs,
+		Name: "refcount-access-fast", Props: []string{"C10"}, ObsNames: stdObs, RacePB: 2,
 		Doc:   "RefCount.Access whose callback returns a distinct error at once per invocation, racing with released() and a context change: the returned error must belong to an invocation whose value was still valid when it returned",
 		Quick: eng.Bounds{PB: 3, Delay: true}, Thorough: eng.Bounds{PB: 4, Delay: true},
 		Body: accessBody([]int{2}, mInvalidate, false, true),
